@@ -124,6 +124,20 @@ theorem plain_listen_string_host_gate (H : Bytes → Req → σ → σ) (mux : B
   · exact (enforceHost_iff_specific_address cfg _ modulePats).2 hspec
   · exact local_endpoint_rejects_foreign_host H mux cfg _ modulePats idx fuel r s hspec hhost
 
+/-- **a placeholder in `listen` that cannot be expanded stops the endpoint**: whenever
+    `ReplaceOrErr(addr, true, true)` does not succeed — unknown placeholder, placeholder that
+    expands to nothing (an unset environment variable), too many unclosed braces — the result is an
+    error and no endpoint starts; in particular `{env.HOST}:2019` with HOST unset never becomes
+    `:2019`, the wildcard interface without Host check.  (And without braces the replacer step
+    changes nothing: `parseAdminListenAddrP_no_braces`.) -/
+theorem listen_placeholder_error_stops_endpoint (env : C18.Env) (addr dflt : Bytes)
+    (h : ∀ out, C18.replaceOrErr addr true true env ≠ .ok out) :
+    parseAdminListenAddrP env addr dflt = .err := by
+  unfold parseAdminListenAddrP
+  split
+  · rename_i out heq; exact absurd heq (h out)
+  · rfl
+
 /-- **`:port` listen strings bind every interface**: the host is empty, so the Host check is off
     (the "not a wildcard interface" exclusion of the property, decided from the string). -/
 theorem empty_host_listen_string_not_enforced (cfg : AdminCfg) (ds dflt : Bytes) (ip : IpClass)
@@ -176,6 +190,21 @@ theorem caddyfile_origins_never_empty (dflt : Bytes) (args : List Bytes)
   · subst h; simp
   · rw [heq]
     exact (cfBlock_inv _ a0 a1 hb).2.1 (by rw [h0]; simp)
+
+/-- **allowed origins come only from what the user wrote**: every origin of the adapted AdminConfig
+    is a token of one single line of the `admin` block (the arguments of an `origins` line) — the
+    adapter neither invents origins nor merges lines. -/
+theorem caddyfile_origins_only_written (dflt : Bytes) (args : List Bytes)
+    (block : Option (List (List Bytes))) (a : CfAdmin) (os : List Bytes)
+    (hp : parseOptAdmin dflt args block = some a) (ho : a.origins = some os) :
+    ∃ ls, block = some ls ∧ ∃ l ∈ ls, ∀ o ∈ os, o ∈ l := by
+  rcases parseOptAdmin_cases dflt args block a hp with h | ⟨a0, a1, _, h0, hb, _, heq⟩
+  · subst h; cases ho
+  · rcases cfBlock_origins _ a0 a1 os hb (heq ▸ ho) with h | ⟨l, hl, hm⟩
+    · rw [h0] at h; cases h
+    · cases block with
+      | none => simp [blockLines] at hl
+      | some ls => exact ⟨ls, rfl, l, hl, hm⟩
 
 -- ================================================================ Caddyfile → listen string → gate, end to end
 
@@ -591,6 +620,18 @@ example : parseAdminListenAddr (str "[::1]:2019") [] = .ok sTcp (str "::1") 2019
     ∧ parseAdminListenAddr (str "localhost:2019-2020") [] = .err
     ∧ parseAdminListenAddr (str "localhost:x") [] = .err
     ∧ parseAdminListenAddr (str "a:b:c") [] = .ok sTcp (str "a:b:c") 0 := by decide   -- (sic: the lenient second try)
+-- listen_placeholder_error_stops_endpoint: HOST=localhost, PORT=2019, UNSET unset
+def exEnv : C18.Env := fun k =>
+  if k = str "env.HOST" then some (str "localhost") else if k = str "env.PORT" then some (str "2019")
+  else if hasPrefix k (str "env.") then some [] else none
+example : parseAdminListenAddrP exEnv (str "{env.HOST}:{env.PORT}") [] = .ok sTcp (str "localhost") 2019
+    ∧ parseAdminListenAddrP exEnv (str "{env.UNSET}:2019") [] = .err
+    ∧ parseAdminListenAddrP exEnv (str "{nope}:2019") [] = .err
+    ∧ (∀ out, C18.replaceOrErr (str "{env.UNSET}:2019") true true exEnv ≠ .ok out) := by
+  refine ⟨by decide, by decide, by decide, ?_⟩
+  intro out h
+  have : C18.replaceOrErr (str "{env.UNSET}:2019") true true exEnv = .emptyVal (str "env.UNSET") := by decide
+  rw [this] at h; cases h
 -- empty_host_listen_string_not_enforced / unix_listen_string_not_enforced
 example : (localEndpoint exCfg (str ":2019") [] .notIP []).map (·.enforceHost) = some false
     ∧ (localEndpoint exCfg (str "unix//run/caddy.sock") [] .notIP []).map (·.enforceHost) = some false
